@@ -140,7 +140,7 @@ func init() {
 		ID:    "C01",
 		Level: "model_checking",
 		Rule: "forward: (S) every protocol-respecting history of <=4 (thorough <=5) calls over a 49-letter alphabet (all 28 mutating Destination methods, ADJ 0..6 and increment forms, 8 colour kinds, 4 number forms, selector read-backs), closed with the shortest suffix, x {low,high} resolution x 4 metadata, encoded by a real Encoder and decoded by the real decoder; " +
-			"run lengths {1,2,15,16,17,31,32,33,47,48,49,64,65} of each of the 20 argument-carrying drawing verbs x 4 run terminators; (P) every value of an 80-element float32 boundary list in every argument position of every method, all pairs for 2-argument methods, all colour classes, viewBox pairs. " +
+			"run lengths {1,2,15,16,17,31,32,33,47,48,49,64,65} of each of the 20 argument-carrying drawing verbs x 4 run terminators; (P) every value of an 87-element float32 boundary list in every argument position of every method, all pairs for 2-argument methods, all colour classes, viewBox pairs. " +
 			"converse: every stream of engines B+F that the decoder accepts is transcoded through an Encoder at both resolutions until the byte string repeats (<=8 rounds), each round compared with the original decode. " +
 			"Comparator: operations, order, ADJ, increment, arc flags, colours bit-exact; numbers: nearest 1/64 (low-res in [-128,128)), unchanged if exactly representable in a short form or in the 4-byte form, else <=4 ulp, sign/infinity kept, NaN stays non-finite, angles modulo one turn. " +
 			"states = histories executed in the structural exploration, transitions = calls executed; non-trivial = round trip containing at least one drawing operation",
